@@ -77,6 +77,8 @@ def main():
     n_long = 40 if tier == "quick" else 1500
     lsptrace.random_histories(rep, cov, tables, texts, n_long, maxlen=40, seed=vlib.SEED, kinds=("open", "change1"),
                               prop="C11")
+    # 7. workspace folder: a server started on a directory that already holds documents behaves as if they had been opened
+    workspace_clause(rep, cov, tier)
     # 6. positions: every single-fault unit of Unit.tla, laid out anew at random (so that faulty lexemes start in column
     #    0, after CRLF, after several blanks ...), through the server and through `check`: same (code, line, column)
     positions_clause(rep, cov, tier)
@@ -86,6 +88,48 @@ def main():
     return rep.finish("model_checking", cov, assumptions=[
         "Diag(state,u) is measured on freshly started servers (twice); absolute correctness of diagnostics is C02/C03/C05",
         "diagnostics compared as sorted lists of (code, start line, start character)"])
+
+
+def workspace_clause(rep, cov, tier):
+    """Lsp.tla with "ws" in Kinds: the initial document state is the content of the workspace folder (every
+    assignment of {absent, valid, semantic-error, depends-on-other} to two files); every history up to length 2 on top
+    of it.  Expectation = the specification's publishes over the fresh-server table (documents opened by notification)."""
+    import lspdrv
+    from concurrent.futures import ThreadPoolExecutor
+    texts = {1: doctexts.T_VALID, 2: doctexts.T_SEM, 3: doctexts.T_DEP}
+    r = vlib.tlc_check("Lsp.tla", "MC_Lsp_ws.cfg", workers=4)
+    cov["states"] += r["states"]
+    cov["transitions"] += r["transitions"]
+    cov["tlc_runs"].append({"cfg": "MC_Lsp_ws.cfg", "states": r["states"], "behaviours": len(r["replay"])})
+    replays = r["replay"]
+    tables = lspcheck.Tables(texts)
+    dk, tk = lspcheck.needed_keys(replays)
+    tables.fill(dk, tk)
+    wd = vlib.workdir("c11_ws")
+
+    def run(item):
+        i, rp = item
+        d = os.path.join(wd, "w%d" % i)
+        os.makedirs(d, exist_ok=True)
+        for u, t in enumerate(rp["hist"][0]["d"], start=1):
+            if t != 0:
+                with open(os.path.join(d, lspdrv.fname(u)), "w") as f:
+                    f.write(texts[t])
+        # files the project must ignore
+        with open(os.path.join(d, "notes.txt"), "w") as f:
+            f.write("a := := ;")
+        return lspdrv.run_server(lspdrv.concretize(rp["hist"], texts), workspace=d)
+
+    with ThreadPoolExecutor(max_workers=vlib.NCPU) as ex:
+        results = list(ex.map(run, enumerate(replays)))
+    for rp, res in zip(replays, results):
+        sig = lspcheck.compare(rp, res, tables)
+        if sig:
+            rep.add("workspace:" + sig, labels={"workspace"} | lspcheck.labels_of(rp),
+                    detail={"disk": [doctexts.NAMES.get({1: 1, 2: 4, 3: 5}.get(t, 0)) for t in rp["hist"][0]["d"]], "history": rp["hist"], "expected": rp["out"],
+                            "observed": lspdrv.observe(res["frames"]), "rc": res["rc"], "stderr": res["stderr"][-400:]},
+                    replay={"history": rp["hist"], "texts": {str(k): v for k, v in texts.items()}, "disk": rp["hist"][0]["d"]})
+    cov["workspace_histories"] = len(replays)
 
 
 def relayout(text, rng):
@@ -123,7 +167,7 @@ def positions_clause(rep, cov, tier):
     def lsp_batch(b):
         msgs = []
         for i, (_, t) in enumerate(b):
-            msgs.append(lspdrv.m_open(lspdrv.URI[1], t, i + 1) if i == 0 else lspdrv.m_change(lspdrv.URI[1], [t], i + 1))
+            msgs.append(lspdrv.m_open(lspdrv.URI[2], t, i + 1) if i == 0 else lspdrv.m_change(lspdrv.URI[2], [t], i + 1))
         msgs += [lspdrv.m_shutdown(9000), lspdrv.M_EXIT]
         res = lspdrv.run_server(msgs, timeout=120)
         pubs = {o["v"]: o["diags"] for o in lspdrv.observe(res["frames"]) if o["k"] == "pub"}
@@ -132,7 +176,7 @@ def positions_clause(rep, cov, tier):
     def cli_one(doc):
         d = tempfile.mkdtemp(prefix="vp_c11p_", dir=vlib.WORK)
         try:
-            p = os.path.join(d, os.path.basename(lspdrv.URI[1]))
+            p = os.path.join(d, lspdrv.fname(2))
             with open(p, "w", newline="") as f:
                 f.write(doc[1])
             rr = vlib.run_cli(["check", p])
